@@ -8,7 +8,7 @@ from .. import core, gen, impl_thr, scen
 from . import c01
 
 ID = "C10"
-BUDGET = {"quick": 300, "thorough": 30000}
+BUDGET = {"quick": 1200, "thorough": 150000}
 RULE = ("scenario = scheduler with 1-5 jobs of all types/limits, n_threads in {0,1,3}, default or user logger, fault pattern per "
         "poll (always / first only / alternating / random subset; any position in the batch) with exception classes Exception, "
         "ValueError, a user subclass, SchedulerError, StopIteration, queue.Empty, KeyError; each scenario is run twice on the real "
